@@ -24,10 +24,32 @@ Definition FUEL := 400%nat.
 Definition stat_case (c : block * block) : N := compare_all FUEL (fst c) (snd c).
 """
 
-DIAG_PREAMBLE = PREAMBLE + """
-Definition check_case (c : block * block) : bool := negb (stat_case c =? 2).
-Definition diag_case (c : block * block) : string := "differs".
+TAGS_PREAMBLE = """From Coq Require Import ZArith.
+From DL Require Import Lib.Bytes Lib.F64 Lua.Syntax Lua.KnownClasses.
+Open Scope N_scope.
+Open Scope string_scope.
+Definition bx := unhex.
+Definition nm := of_string.
+Definition check_case (b : block) : bool := false.
+Definition diag_case (b : block) : string := known_tags b.
 """
+
+# recorded finding classes: tag computed in Coq on the input tree (Lua/KnownClasses.v), the
+# rules that must be involved, and the key of known_findings.txt
+KNOWN_CLASSES = [
+    ("K5", ["compute_expression"], "compute_expression:known-truthy-and-multivalue-operand"),
+    ("K7", ["remove_unused_variable", "remove_assertions", "remove_debug_profiling", "convert_square_root_call"],
+     "expressions_as_statement:local-underscore-shadows-user-variable"),
+    ("K2", ["remove_continue"], "remove_continue:repeat-until-condition-reads-body-local"),
+    ("K10", ["convert_square_root_call"], "convert_square_root_call:negative-zero-or-negative-infinity"),
+]
+
+
+def known_key(tags, rules):
+    for tag, needed, key in KNOWN_CLASSES:
+        if tag in tags.split() and any('"%s"' % r in rules for r in needed):
+            return key
+    return None
 
 
 def run_profile(ctx, profile, n, size=7, classify=None):
@@ -69,9 +91,17 @@ def run_profile(ctx, profile, n, size=7, classify=None):
     ctx.stream("rules/%s: run(reference) vs run(output) in the Coq reference interpreter" % profile,
                len(coq_cases), nontrivial, samples, programs=len(cases), compared=checked, no_verdict=skipped,
                differing=len(bad), programs_changed_by_rules=changed, stage_errors=len(stage_errors))
+    tags = {}
+    if bad:
+        srcs = sorted({index[k][0]["id"] for k in bad})
+        by_id = {c["id"]: c for c in cases}
+        res = C.run_coq_cases(ctx.prop, TAGS_PREAMBLE, [(i, by_id[i]["in"]) for i in srcs], chunk=50, tag="tags_" + profile)
+        tags = dict(res)
     for k in sorted(bad):
         c, stage = index[k]
-        key = classify(c, stage) if classify else None
+        key = known_key(tags.get(c["id"], ""), c["rules"])
+        if key is None and classify:
+            key = classify(c, stage)
         ctx.violation("output program behaves differently from the original (%s)" %
                       ("rules applied to the tree" if stage == "out" else "end to end through process + generator"),
                       {"rules": c["rules"], "generator": c["generator"] if stage == "e2e" else None,
